@@ -175,7 +175,7 @@ def run_case(case):
         if sample is None and call["fields"] and call["state"]["request_id"] == "unset":
             sample = {"rpc": call["rpc"], "transport": call["transport"], "form": call["form"], "listed": call["fields"],
                       "request_id_on_wire": got.request_id, "opt_request_id_on_wire": got.opt_request_id}
-    return {"verdict": "violated" if viol else "held", "violations": viol[:20], "evaluations": counters.get("calls_judged", 0),
+    return {"verdict": "violated" if viol else "held", "violations": pipeline.diverse(viol, 40), "evaluations": counters.get("calls_judged", 0),
             "nontrivial_sigs": sorted(sigs), "counters": counters, "sample": sample or {}}
 
 
